@@ -86,36 +86,5 @@ fn u05_encode_many_prefix() {
     }
 }
 
-// Message::encode / Message::decode on the message SKELETON: every combination of version and flags (any 7-bit
-// flag set, or none), heads of zero or one arbitrary hash, the other lists empty -- decode(encode(m)) == m.
-// Bounded in the list lengths (<= 1 head, no need/have/changes); complete in the hash bytes, flags and version.
-#[kani::proof]
-#[kani::unwind(36)]
-fn u05_message_skeleton_roundtrip() {
-    let version = if kani::any() { MessageVersion::V1 } else { MessageVersion::V2 };
-    let flags = if kani::any() {
-        let raw: u8 = kani::any();
-        Some(MessageFlags(raw & 0x7f))
-    } else {
-        None
-    };
-    let heads = if kani::any() {
-        let h: [u8; 32] = kani::any();
-        vec![ChangeHash(h)]
-    } else {
-        Vec::new()
-    };
-    let m = Message {
-        heads,
-        need: Vec::new(),
-        have: Vec::new(),
-        changes: ChunkList::empty(),
-        flags,
-        version,
-    };
-    let bytes = m.clone().encode();
-    match Message::decode(&bytes) {
-        Ok(d) => assert!(d == m),
-        Err(_) => panic!("own encoding rejected"),
-    }
-}
+// (withdrawn: a Message::encode/decode round trip of even the empty-list skeleton exceeds 900 s of CBMC --
+// Vec<Vec<u8>> / Vec<Have> growth -- so no obligation is offered for it.)
